@@ -679,6 +679,7 @@ def to_isar_variants(schema, rng):
     -> (xml, patch text or None, forms used)"""
     patch = []
     forms = set()
+    late_rules = []
     body = []
     for d in schema.defs:
         if d.kind == 'enum':
@@ -792,15 +793,23 @@ def to_isar_variants(schema, rng):
                     out.append('<member name="%s" type="%s"><dimension isVariableSize="true"%s '
                                'variableSizeFieldName="num_of_%s"/></member>' % (m.name, t, extra, m.name))
             elif m.kind == LIMITED:
+                # two-dimensional spelling size x size2 (flattened to the product) for a random divisor
+                divs = [k for k in range(2, m.size + 1) if m.size % k == 0] if not m.size_text else []
+                if divs and rng.random() < 0.5:
+                    k = rng.choice(divs)
+                    dim = 'size="%d" size2="%d"' % (m.size // k, k)
+                    two = '+size2'
+                else:
+                    dim, two = 'size="%s"' % sz, ''
                 if r < 0.3:
-                    forms.add('patch-limited')
+                    forms.add('patch-limited' + two)
                     out.append('<member name="num_of_%s" type="u32"/>' % m.name)
-                    out.append('<member name="%s" type="%s"><dimension size="%s"/></member>' % (m.name, t, sz))
+                    out.append('<member name="%s" type="%s"><dimension %s/></member>' % (m.name, t, dim))
                     local_patch.append('%s limited %s num_of_%s' % (xml_name, m.name, m.name))
                 else:
-                    forms.add('isVariableSize+size')
-                    out.append('<member name="%s" type="%s"><dimension isVariableSize="true" size="%s" '
-                               'variableSizeFieldName="num_of_%s"/></member>' % (m.name, t, sz, m.name))
+                    forms.add('isVariableSize+size' + two)
+                    out.append('<member name="%s" type="%s"><dimension isVariableSize="true" %s '
+                               'variableSizeFieldName="num_of_%s"/></member>' % (m.name, t, dim, m.name))
             elif m.kind == EXT:
                 if m.sizer == 'numOf' + m.name[0].upper() + m.name[1:] and r < 0.7:
                     forms.add('THIS_IS_VARIABLE_SIZE_ARRAY')
@@ -815,10 +824,14 @@ def to_isar_variants(schema, rng):
                 local_patch.append('%s greedy %s' % (xml_name, m.name))
         if xml_name != d.name:
             local_patch.append('%s rename %s' % (xml_name, d.name))
+            # rules name messages of the *input*: one addressed to the new name (no such message there) is ignored
+            late_rules.append('%s type %s u64' % (d.name, d.members[0].name))
+            forms.add('patch-rule-for-the-new-name-of-a-renamed-node')
         patch.extend(local_patch)
         tag = 'message' if as_message else 'struct'
         if as_message:
             forms.add('message')
         body.append('<%s name="%s">%s\n</%s>' % (tag, xml_name, ''.join('\n    ' + x for x in out), tag))
+    patch.extend(late_rules)
     xml = '<?xml version="1.0" encoding="utf-8"?>\n<x>\n%s\n</x>\n' % '\n'.join(body)
     return xml, ('\n'.join(patch) + '\n') if patch else None, forms
